@@ -95,7 +95,7 @@ func rawRacePass(r *ev.Run, prop, name string, cfg world.Cfg, parts, workers, op
 }
 
 func rawPassesC08(r *ev.Run) {
-	ops := ev.Pick(50, 2000)
+	ops := ev.Pick(50, 1000)
 	for _, sh := range []struct {
 		pol    string
 		cap    int
@@ -113,7 +113,7 @@ func rawPassesC08(r *ev.Run) {
 }
 
 func rawPassesC16(r *ev.Run) {
-	ops := ev.Pick(50, 2000)
+	ops := ev.Pick(50, 1000)
 	for _, sh := range []struct {
 		pol string
 		cap int
